@@ -23,6 +23,13 @@ CLAIMED = {
  "C08": ("property-based testing (proptest) with a round-trip oracle in both directions",
          "Generated V5/V7 packets: every element the library returns must re-export to exactly its input span; and structures built through the public fields from an independent offset-table decode must export to the original bytes, re-parse to an equal structure with no remainder, and export again identically.",
          "Spans come from the C02 decomposition; structures for the reverse direction are built from the harness' own offset table.", "DESIGN.md §4 C08"),
+
+ "C09": ("property-based testing (proptest: conformant lossless / wide streams + hostile histories) with a re-export round-trip oracle and field-level attribution",
+         "For every V9 element the library returns, to_be_bytes must be Ok and equal the element's input span. The harness predicts the export from the input bytes and substitutes the library's own value export only for value kinds named by an open finding; the export must equal the prediction byte for byte, so anything not explained (padding, header order, widths) is a violation. A strict phase using only losslessly exportable kinds must be completely clean.",
+         "Spans from the C02 decomposition; the template in effect is reconstructed from the template records the library itself reported.", "DESIGN.md §4 C09"),
+ "C10": ("property-based testing (proptest: conformant lossless / wide streams + hostile histories) with a re-export round-trip oracle and field-level attribution",
+         "For every IPFIX element with header.length >= 16, to_be_bytes must be Ok and equal the header.length input bytes; prediction/attribution as for C09 with the IPFIX-specific findings (variable-length prefix, signed widths, omitted sets). Strict phase (fixed-length lossless kinds incl. enterprise elements) must be completely clean.",
+         "Spans from the C02 decomposition; messages with length < 16 are outside 'accepted messages' and only covered by C01.", "DESIGN.md §4 C10"),
 }
 NOT_YET = {}
 
